@@ -173,6 +173,11 @@ def judge_inherit_groups(pkg: dict, gen_texts: list[str], flag: bool) -> list[di
                 ch = _member_chunk(body, member)
                 if ch is not None:
                     seen[cname] = ch
+            present_classes = [sub.split(".")[-1] for sub in g["subs"] if sub.split(".")[-1] in blocks]
+            missing = [c for c in present_classes if c not in seen]
+            if seen and missing:
+                a = sorted(seen)[0]
+                out.append({"member": member, "base": g["base"], "class_a": a, "class_b": missing[0], "text_a": seen[a], "text_b": "<member not rendered in this subclass>", "flag": flag})
             if len(set(seen.values())) > 1:
                 names = sorted(seen)
                 a, b = names[0], next(n for n in names if seen[n] != seen[names[0]])
